@@ -516,7 +516,11 @@ def _tname(variant):
     for name, tab in core.PRIVATE_TABLES.items():
         if tab is T:
             return name
-    raise LookupError('table of variant %s is not registered' % variant)
+    raise TableUnregistered(variant)
+
+
+class TableUnregistered(Exception):
+    """The table object of a variant is alive but no longer found under any name in the registry that pickling uses."""
 
 
 def _isotopes(variant, Z):
@@ -679,6 +683,10 @@ def _guarded(fn):
             fn(ctx, case)
         except ContractBroken:
             ctx.count('contract.raised')
+        except TableUnregistered as exc:
+            ctx.violation('the table of variant %r is alive but no longer registered under its name: its atoms cannot be '
+                          'pickled and restored any more (a refused request - a second table of the same name, an invalid '
+                          'lookup - must not remove it)' % (exc.args[0],), kind='table-unregistered', route='registry')
         finally:
             _drain(ctx)
     run.__name__ = fn.__name__
@@ -1335,6 +1343,23 @@ def check_held(ctx, case):
                     iso.ion[q]
                     swept += 1
     ctx.count('held.swept_ions', swept)
+    # requests the library refuses (caught by the caller) change nothing either: an undefined charge of the kept atoms'
+    # elements, an isotope that does not exist, a second table under a name that is taken
+    core = _s['core']
+    for v, T, (Z, A, q), obj in held:
+        for bad in (lambda: T[Z].ion[99], lambda: T[Z].ion[-77], lambda: T[Z][999], lambda: T.isotope('999-' + T[Z].symbol),
+                    lambda: (T[Z][A] if A else T[Z]).ion[98]):
+            try:
+                bad()
+                ctx.count('held.refused_request.answered')
+            except Exception:
+                ctx.count('held.refused_request.refused')
+    for name in sorted(set([_tname(v) for v, _T in tabs] + ['public'])):
+        try:
+            core.PeriodicTable(name)
+            ctx.count('held.second_table_same_name.accepted')
+        except Exception:
+            ctx.count('held.second_table_same_name.refused')
     for v, T, (Z, A, q), obj in held:
         again = T[Z]
         if A:
